@@ -338,7 +338,7 @@ impl<'a> M<'a> {
                 if let Some(k) = self.running_child() {
                     if self.signal(k, sig) {
                         // the graceful stop completes at min(child exit, deadline); its own ticket (if any) resolves then
-                        self.timer = Some((self.now + grace, false, tk.unwrap_or(u32::MAX)));
+                        self.timer = Some((self.now.saturating_add(grace), false, tk.unwrap_or(u32::MAX)));
                     } else {
                         self.resolve(tk);
                     }
@@ -359,7 +359,7 @@ impl<'a> M<'a> {
                 if let Some(k) = self.running_child() {
                     if self.signal(k, sig) {
                         let t = tk.unwrap_or(u32::MAX);
-                        self.timer = Some((self.now + grace, true, t));
+                        self.timer = Some((self.now.saturating_add(grace), true, t));
                         self.restart_ticket = Some(t);
                     } else {
                         self.resolve(tk);
@@ -546,6 +546,10 @@ pub fn run_model(scn: &E1Scn, out: Option<&RunOut>) -> ModelResult {
         wait_fail_due: false,
         after,
     };
+    // the end of the observed scenario, when there is one
+    let horizon = out
+        .and_then(|o| o.hist.iter().find(|r| matches!(r.ev, Ev::Note { what: "task-finished-at-end", .. })).map(|r| r.t))
+        .unwrap_or(1 << 60);
     let mut steps = 0;
     loop {
         steps += 1;
@@ -597,6 +601,10 @@ pub fn run_model(scn: &E1Scn, out: Option<&RunOut>) -> ModelResult {
         let next_arrival = if m.front_blocked() { None } else { m.arrivals.front().map(|a| a.0.max(m.now)) };
         let cands: Vec<u64> = [next_exit, next_timer, next_arrival].iter().flatten().copied().collect();
         let Some(&next) = cands.iter().min() else { break };
+        if next >= horizon {
+            // (a grace period that outlasts the scenario: nothing beyond its end is predicted)
+            break;
+        }
         if cands.iter().filter(|c| **c == next).count() > 1 {
             return ModelResult::Ambiguous("two of {send, process end, timer expiry} share an instant");
         }
@@ -772,6 +780,10 @@ pub fn gen_model_random(rng: &mut Rng) -> E1Scn {
         match &mut op {
             Op::StopSig { grace, sig } | Op::RestartSig { grace, sig } | Op::TryRestartSig { grace, sig } => {
                 *grace = *rng.pick(&graces);
+                if rng.chance(1, 30) {
+                    // Duration::MAX: "wait for ever"
+                    *grace = u64::MAX;
+                }
                 if rng.chance(1, 12) {
                     // ForceStop as the "graceful" signal
                     *sig = 9;
@@ -918,6 +930,10 @@ impl Check for C09 {
                     stats.hit("probe:awaiting-sender-compared-with-model");
                 }
                 let got = observed_trace(scn, out);
+                // nothing beyond the end of the scenario can be compared (a grace period may outlast it: "wait for ever")
+                let horizon = out.hist.iter().find(|r| matches!(r.ev, Ev::Note { what: "task-finished-at-end", .. })).map(|r| r.t).unwrap_or(u64::MAX);
+                let want: Vec<(u64, Obs)> = want.into_iter().filter(|(t, _)| *t < horizon).collect();
+                let got: Vec<(u64, Obs)> = got.into_iter().filter(|(t, _)| *t < horizon).collect();
                 stats.add("probe:observations-compared", want.len() as u64);
                 if want.iter().any(|(_, o)| matches!(o, Obs::SpawnFail { .. })) {
                     stats.hit("fault:spawn-failure");
